@@ -72,7 +72,7 @@ struct Rig {
 fn channels_of(config: Config) -> usize {
     match config {
         Config::Default => 2,
-        Config::Full => 7,
+        Config::Full => 8,
     }
 }
 
@@ -207,6 +207,7 @@ pub fn genuine_messages(config: Config) -> std::collections::BTreeMap<usize, Vec
         w.send_event(C3(seq(CK::C3.tag(), 203)));
         w.send_event(CM { seq: seq(CK::CM.tag(), 204), e: ce });
         w.client_trigger_targets(CT(seq(CK::CT.tag(), 205)), ce);
+        w.send_event(CS { seq: seq(CK::CS.tag(), 206), text: "hello".into() });
         sim.client_frame(1).expect("client frame");
         grab(&mut sim, &mut out);
     }
@@ -294,17 +295,47 @@ pub fn worker(job_json: &str) -> i32 {
     } else {
         None
     };
+    // For the acknowledgement channel, a genuine acknowledgement of the well-behaved client is
+    // queued behind the attacker's message in the same frame: it must still take effect (the
+    // acknowledged mutation is not sent again).
+    let ack_companion = job.channel == 0 && job.sender != Sender::Disconnecting && job.inputs != "short:3";
     for input in inputs_of(job.config, job.channel, &job.inputs, job.part, job.parts) {
         journal.record(&input);
         res.inputs += 1;
         since_health += 1;
-        let process = |rig: &mut Rig| {
+        let mut ack_lost = false;
+        let mut process = |rig: &mut Rig| {
             let conn = rig.sim.clients[0].conn.expect("attacker connection");
+            let mut genuine_acks: Vec<bevy_replicon::bytes::Bytes> = Vec::new();
+            if ack_companion {
+                rig.sim.apply_op(Op::Mut(0, TA));
+                rig.sim.server_frame(true).expect("server frame producing a mutate message");
+                for ch in 0..rig.sim.server_channels.len() {
+                    rig.sim.deliver_to_client(1, ch, &Sel::All);
+                }
+                rig.sim.client_frame(1).expect("client frame");
+                genuine_acks = rig.sim.clients[1].c2s[0].drain(..).map(|m| m.bytes).collect();
+                assert!(!genuine_acks.is_empty(), "the well-behaved client acknowledges the mutate message");
+                for q in rig.sim.clients[0].s2c.iter_mut() {
+                    q.clear();
+                }
+                rig.sim.wire.clear();
+                rig.sim.actions.clear();
+                rig.sim.steps.clear();
+            }
             rig.sim
                 .server
                 .world_mut()
                 .resource_mut::<RepliconServer>()
                 .insert_received(conn, job.channel, input.clone());
+            for a in &genuine_acks {
+                let good = rig.sim.clients[1].conn.expect("good client connection");
+                rig.sim
+                    .server
+                    .world_mut()
+                    .resource_mut::<RepliconServer>()
+                    .insert_received(good, 0usize, a.clone());
+            }
             if let Some(g) = &companion {
                 let good = rig.sim.clients[1].conn.expect("good client connection");
                 rig.sim
@@ -324,7 +355,18 @@ pub fn worker(job_json: &str) -> i32 {
                 .increment();
             let out = record_max_alloc(|| guarded(|| rig.sim.server.update()));
             if out.0.is_ok() {
-                let _ = rig.sim.server.world_mut().resource_mut::<RepliconServer>().drain_sent().count();
+                let good = rig.sim.clients[1].conn;
+                let resent = rig
+                    .sim
+                    .server
+                    .world_mut()
+                    .resource_mut::<RepliconServer>()
+                    .drain_sent()
+                    .filter(|(to, ch, _)| Some(*to) == good && *ch == 1)
+                    .count();
+                if ack_companion && resent > 0 {
+                    ack_lost = true;
+                }
                 if job.sender == Sender::Disconnecting {
                     rig.sim.connect(0);
                 }
@@ -377,6 +419,15 @@ pub fn worker(job_json: &str) -> i32 {
                             site: "companion".into(),
                         });
                     }
+                }
+                if ack_lost && res.bad.len() < 50 {
+                    res.outcomes.insert("ack-lost".into());
+                    res.bad.push(BadInput {
+                        oracle: "legit-ack-lost".into(),
+                        input: hex(&input),
+                        detail: "a genuine acknowledgement of the well-behaved client, queued behind this message in the same frame, had no effect: the acknowledged mutation was sent again".into(),
+                        site: "ack-companion".into(),
+                    });
                 }
                 if max_alloc > alloc_bound(input.len()) {
                     res.outcomes.insert("oversized".into());
